@@ -76,7 +76,7 @@ class Engine:
     def sort_of(self, t):
         if t.kind == 'real': return R
         if t.kind == 'bool': return B
-        if t.kind in ('int', 'enum', 'ptr'): return I
+        if t.kind in ('int', 'enum', 'ptr', 'string'): return I
         raise Unsupported('no scalar sort for type %r' % (t,))
 
     def uf(self, name, *sorts):
@@ -527,7 +527,7 @@ class Engine:
         return z3.IntVal(int(n['value']))
 
     def ev_StringLiteral(self, n, st, fr):
-        return Opaque('string', n.get('value'))
+        return self.models.str_id(n.get('value'))
 
     def ev_GNUNullExpr(self, n, st, fr):
         return Ptr(z3.IntVal(0), None)
